@@ -139,8 +139,25 @@ def build(cfg, ev):
     perr = cfg['perr']
     exc_t = EXC[cfg['exc']]
 
-    def body(name, received):
-        ev.append({'ev': 'Exec', 'method': name, 'args': abst(received)})
+    started = [0]
+
+    # only when no middleware / error handler logs events for the element (then Exec is its only event and the recorded
+    # order of events stays the order of the sequential model while the COMPLETION order of the elements is reversed)
+    pausing = not cfg['mws'] and not cfg['eh']['gen'] and not any(cfg['eh']['by'].values())
+
+    async def pause():
+        # coroutine methods really suspend, and the earlier an element starts the longer it takes to finish
+        if not pausing:
+            return
+        started[0] += 1
+        for _ in range(max(0, 4 - started[0])):
+            await asyncio.sleep(0)
+
+    def body(name, received, log=True):
+        if log:
+            ev.append({'ev': 'Exec', 'method': name, 'args': abst(received)})
+            if coro:
+                return None
         if name == 'm_perr':
             data = UNSET if perr['data'] == ABSENT else conc(perr['data'])
             raise exceptions.JsonRpcError(code=conc(perr['code']), message=conc(perr['message']), data=data)
@@ -149,17 +166,22 @@ def build(cfg, ev):
         return received
 
     if coro:
+        async def run_coro(name, received):
+            body(name, received)            # logs the execution
+            await pause()
+            return body(name, received, log=False)
+
         async def ok(a=None, b=None):
-            return body('m_ok', {'a': a, 'b': b})
+            return await run_coro('m_ok', {'a': a, 'b': b})
 
         async def one(a):
-            return body('m_one', {'a': a, 'only': 'one'})
+            return await run_coro('m_one', {'a': a, 'only': 'one'})
 
         async def perr_m(a=None, b=None):
-            return body('m_perr', {'a': a, 'b': b})
+            return await run_coro('m_perr', {'a': a, 'b': b})
 
         async def exc_m(a=None, b=None):
-            return body('m_exc', {'a': a, 'b': b})
+            return await run_coro('m_exc', {'a': a, 'b': b})
     else:
         def ok(a=None, b=None):
             return body('m_ok', {'a': a, 'b': b})
